@@ -7,5 +7,6 @@ INVARIANT LazyEnds
 INVARIANT LazyIsShort
 INVARIANT LazyPatternsRestart
 INVARIANT LazyConserves
+INVARIANT LazyResetRestores
 INVARIANT LazyInputReaches
 INVARIANT LazyGeneratorDies
